@@ -682,6 +682,13 @@ func (e *Env) evalCall(c *ast.CallExpr) Val {
 			return v
 		}
 		e.fail("carried(%s): no unique loop-carried variable of that type here", t)
+	case "local":
+		// local(T): the unique local variable of type T in scope (rename-proof)
+		t := e.x.typeOfExpr(arg(0))
+		if v, ok := e.vars["local:"+typeKey(t)]; ok {
+			return v
+		}
+		e.fail("local(%s): no unique local variable of that type in scope here", t)
 	case "prefix":
 		// prefix(s, k): the first k elements of s (s[:k]); for slices of string-kinded values the
 		// element set of the prefix is unfolded one step: elems(s[:k]) == elems(s[:k-1]) ∪ {s[k-1]}
